@@ -7,6 +7,7 @@ import (
 	"reflect"
 	"strconv"
 	"strings"
+	"time"
 
 	"github.com/theparanoids/ysshra/message"
 	"github.com/theparanoids/ysshra/verifharness/lib/ev"
@@ -308,7 +309,7 @@ func legacyText(r *ev.Run, c *ev.Case) {
 }
 
 func main() {
-	ev.Main("C15", "exploration", func(r *ev.Run) {
+	ev.MainIsolated("C15", "exploration", 40*time.Minute, func(r *ev.Run) {
 		r.Rule("seeded attribute sets (all boolean combinations, algorithm numbers -1..20, touchless-sudo nil/empty/partial/full, nested extension maps of JSON-native values incl. strings that look like legacy tokens, UTF-8 strings) round-tripped through Marshal/Unmarshal in the JSON format (ifVer>=7) and the legacy format (ifVer<7, values free of whitespace and '@', also through MarshalLegacy/UnmarshalLegacy directly); JSON objects with missing required fields and embedded legacy tokens; JSON scalars; legacy texts assembled from tokens with repeats, empty values, '=' in values and stray separators. distinct_nontrivial = distinct wire texts that completed a round trip or reached the JSON-object decision")
 		r.Assume("ext values are JSON-native (numbers are float64)", "strings are valid UTF-8", "reference legacy tokenizer: split on space, trim, first '=', last key wins")
 		n := r.Pick(6000, 160000)
